@@ -1582,3 +1582,186 @@ Proof.
       unfold read_port_sync at 2. rewrite (Hin p) by (simpl; auto). cbn. apply IH. intros; apply Hin; simpl; auto. }
     rewrite E. apply slot_update_same.
 Qed.
+
+(* ================= collector_ok from shape consistency ================= *)
+(* all assignment targets of a statement, in visit order *)
+Fixpoint stmt_lhss (s : stmt) : list expr :=
+  match s with
+  | SAssign l _ => [l]
+  | SSwitch _ cs =>
+      (fix go (cs : list (option (list pattern) * list stmt)) : list expr :=
+         match cs with
+         | [] => []
+         | c :: cs' => (fix run (ss : list stmt) : list expr :=
+                          match ss with [] => [] | s' :: ss' => stmt_lhss s' ++ run ss' end) (snd c) ++ go cs'
+         end) cs
+  end.
+
+Definition mask_step (acc : maskmap) (l : expr) : maskmap := lhs_mask l (-1) acc.
+
+Lemma stmt_mask_flat s : forall acc, stmt_mask s acc = fold_left mask_step (stmt_lhss s) acc.
+Proof.
+  induction s as [l r|t cs IH] using stmt_ind2; intros acc; [reflexivity|].
+  cbn [stmt_mask stmt_lhss]. revert acc. induction cs as [|c cs' IHc]; intros acc; [reflexivity|].
+  inversion IH as [|? ? Hc Hcs]; subst. rewrite fold_left_app. rewrite <- IHc by auto. f_equal.
+  clear IHc Hcs. revert acc. induction (snd c) as [|s' ss' IHs]; intros acc; [reflexivity|].
+  inversion Hc; subst. rewrite fold_left_app. rewrite <- IHs by auto. f_equal. auto.
+Qed.
+
+Lemma stmt_sigs_flat s : stmt_sigs s = flat_map sigs_of (stmt_lhss s).
+Proof.
+  induction s as [l r|t cs IH] using stmt_ind2; [cbn; rewrite app_nil_r; reflexivity|].
+  cbn [stmt_sigs stmt_lhss]. induction cs as [|c cs' IHc]; [reflexivity|].
+  inversion IH as [|? ? Hc Hcs]; subst. rewrite flat_map_app. rewrite <- IHc by auto. f_equal.
+  clear IHc Hcs. induction (snd c) as [|s' ss' IHs]; [reflexivity|].
+  inversion Hc; subst. rewrite flat_map_app. rewrite <- IHs by auto. f_equal. auto.
+Qed.
+
+Lemma stmts_mask_flat ss : stmts_mask ss = fold_left mask_step (flat_map stmt_lhss ss) (fun _ => 0).
+Proof.
+  unfold stmts_mask. generalize (fun _ : nat => 0) as acc. induction ss as [|s ss IH]; intros acc; [reflexivity|].
+  cbn [fold_left flat_map]. rewrite fold_left_app, <- stmt_mask_flat. apply IH.
+Qed.
+
+Lemma stmts_sigs_flat ss : flat_map stmt_sigs ss = flat_map sigs_of (flat_map stmt_lhss ss).
+Proof.
+  induction ss as [|s ss IH]; [reflexivity|]. cbn [flat_map]. rewrite flat_map_app, <- stmt_sigs_flat, IH. reflexivity.
+Qed.
+
+(* a target only touches the masks of the signals it names *)
+Lemma lhs_mask_frame lhs : forall mask acc i, ~ In i (sigs_of lhs) -> lhs_mask lhs mask acc i = acc i.
+Proof.
+  induction lhs as [v s|j s|o a IHa|o a b0 IHa IHb|a lo hi IHa|a off w st IHa IHoff|l IH|t cs IHt IHcs]
+    using expr_ind'; intros mask acc i Hn; cbn [lhs_mask]; auto.
+  - unfold mm_or. destruct (Nat.eqb i j) eqn:E; auto. apply Nat.eqb_eq in E. exfalso. apply Hn. simpl. auto.
+  - destruct o; auto.
+  - cbn [sigs_of] in Hn. revert mask acc. induction l as [|p ps IHl]; intros mask acc; auto.
+    inversion IH; subst. cbn [flat_map] in Hn. rewrite IHl by (auto; intro; apply Hn; apply in_or_app; auto).
+    apply H1. intro; apply Hn; apply in_or_app; auto.
+  - cbn [sigs_of] in Hn. revert acc. induction cs as [|c cs' IHl]; intros acc; auto.
+    inversion IHcs; subst. cbn [flat_map] in Hn. rewrite IHl by (auto; intro; apply Hn; apply in_or_app; auto).
+    apply H1. intro; apply Hn; apply in_or_app; auto.
+Qed.
+
+Definition within (ss : nat -> shape) (acc : maskmap) : Prop :=
+  forall i k, width (ss i) <= k -> Z.testbit (acc i) k = false.
+
+Lemma lhs_mask_within ss lhs : (forall i, 0 <= width (ss i)) -> sig_ok ss lhs ->
+  forall mask acc, within ss acc -> within ss (lhs_mask lhs mask acc).
+Proof.
+  intros Hw.
+  induction lhs as [v s|j s|o a IHa|o a b0 IHa IHb|a lo hi IHa|a off w st IHa IHoff|l IH|t cs IHt IHcs]
+    using expr_ind'; intros Hs mask acc Ha; cbn [lhs_mask]; auto.
+  - simpl in Hs. subst s. intros i k Hk. unfold mm_or. destruct (Nat.eqb i j) eqn:E; [|apply Ha; auto].
+    apply Nat.eqb_eq in E. subst i. rewrite Z.lor_spec, (Ha j k Hk), Z.land_spec.
+    replace (Z.shiftl 1 (width (ss j)) - 1) with (Z.ones (width (ss j))) by (unfold Z.ones; lia).
+    rewrite Z.ones_spec_high by (specialize (Hw j); lia). rewrite andb_false_r. reflexivity.
+  - destruct o; auto.
+  - apply sig_ok_cat in Hs. revert mask acc Ha. induction l as [|p ps IHl]; intros mask acc Ha; auto.
+    inversion IH; subst. inversion Hs; subst. apply IHl; auto.
+  - apply sig_ok_sw in Hs. revert acc Ha. induction cs as [|c cs' IHl]; intros acc Ha; auto.
+    inversion IHcs; subst. inversion Hs; subst. apply IHl; auto.
+Qed.
+
+Lemma uniq_in : forall l seen x, In x l -> In x seen \/ In x (uniq seen l).
+Proof.
+  induction l as [|y l IH]; intros seen x H; [contradiction|]. cbn [uniq].
+  destruct (existsb (Nat.eqb y) seen) eqn:E.
+  - destruct H as [<-|H]; [|apply IH; auto]. left. apply existsb_exists in E. destruct E as [z [Hz Hy]].
+    apply Nat.eqb_eq in Hy. subst. auto.
+  - destruct H as [<-|H]; [right; left; reflexivity|]. destruct (IH (y :: seen) x H) as [[<-|Hs]|Hu]; auto.
+    + right. left. reflexivity.
+    + right. right. auto.
+Qed.
+
+(* every assignment target names its signals with the shapes of the signal table *)
+Definition stmts_sig_ok (tab : sigtab) (ss : list stmt) : Prop :=
+  Forall (sig_ok (fun i => sd_shape (tab i))) (flat_map stmt_lhss ss).
+
+Theorem collector_ok_of_sig_ok tab ss : (forall i, 0 <= width (sd_shape (tab i))) -> stmts_sig_ok tab ss ->
+  collector_ok tab ss.
+Proof.
+  intros Hw Hs. unfold stmts_sig_ok in Hs. split.
+  - rewrite stmts_mask_flat.
+    assert (G : forall l acc, Forall (sig_ok (fun i => sd_shape (tab i))) l -> within (fun i => sd_shape (tab i)) acc ->
+              within (fun i => sd_shape (tab i)) (fold_left mask_step l acc)).
+    { induction l as [|x l IH]; intros acc Hf Ha; auto. inversion Hf; subst. cbn [fold_left]. apply IH; auto.
+      apply lhs_mask_within; auto. }
+    apply (G _ _ Hs). intros i k _. apply Z.testbit_0_l.
+  - intros i Hne. unfold lhs_keys. rewrite stmts_sigs_flat.
+    destruct (in_dec Nat.eq_dec i (flat_map sigs_of (flat_map stmt_lhss ss))) as [Hin|Hnin].
+    + destruct (uniq_in _ [] i Hin) as [[]|H]; auto.
+    + exfalso. apply Hne. rewrite stmts_mask_flat.
+      assert (G : forall l acc, ~ In i (flat_map sigs_of l) -> fold_left mask_step l acc i = acc i).
+      { induction l as [|x l IH]; intros acc Hn; auto. cbn [fold_left flat_map] in *.
+        rewrite IH by (intro; apply Hn; apply in_or_app; auto). apply lhs_mask_frame.
+        intro; apply Hn; apply in_or_app; auto. }
+      rewrite G by auto. reflexivity.
+Qed.
+
+(* ================= ClockSignal / ResetSignal: renaming then lowering = lowering ================= *)
+Lemma cs_decode_index base d k : (k < 3)%nat -> cs_decode base (cs_index base d k) = Some (d, k).
+Proof.
+  intros Hk. unfold cs_decode, cs_index. replace (Nat.ltb (base + (3 * d + k)) base) with false by (symmetry; apply Nat.ltb_ge; lia).
+  replace (base + (3 * d + k) - base)%nat with (k + d * 3)%nat by lia.
+  rewrite Nat.div_add, Nat.mod_add by lia. rewrite Nat.div_small, Nat.mod_small by lia. reflexivity.
+Qed.
+
+Lemma cs_decode_k base i d k : cs_decode base i = Some (d, k) -> (k < 3)%nat.
+Proof.
+  unfold cs_decode. destruct (Nat.ltb i base); [discriminate|]. intros H.
+  assert (E : k = ((i - base) mod 3)%nat) by congruence. rewrite E. apply Nat.mod_upper_bound. lia.
+Qed.
+
+Lemma map_sig_ext_in f g e : (forall i s, In i (expr_sigs e) -> f i s = g i s) -> map_sig f e = map_sig g e.
+Proof.
+  induction e as [v s|j s|o a IHa|o a b0 IHa IHb|a lo hi IHa|a off w st IHa IHoff|l IH|t cs IHt IHcs]
+    using expr_ind'; intros H; cbn [map_sig expr_sigs] in *.
+  - reflexivity.
+  - apply H. simpl. auto.
+  - rewrite IHa; auto.
+  - rewrite IHa, IHb; auto; intros; apply H; apply in_or_app; auto.
+  - rewrite IHa; auto.
+  - rewrite IHa, IHoff; auto; intros; apply H; apply in_or_app; auto.
+  - f_equal. apply map_ext_in. intros p Hp. rewrite Forall_forall in IH. apply IH; auto.
+    intros i s Hi. apply H. apply in_flat_map. eauto.
+  - rewrite IHt by (intros; apply H; apply in_or_app; auto). f_equal. apply map_ext_in. intros c Hc.
+    rewrite Forall_forall in IHcs. rewrite IHcs; auto. intros i s Hi. apply H. apply in_or_app. right.
+    apply in_flat_map. eauto.
+Qed.
+
+Lemma map_sig_comp f g e : map_sig g (map_sig f e) = map_sig (fun i s => map_sig g (f i s)) e.
+Proof.
+  induction e as [v s|j s|o a IHa|o a b0 IHa IHb|a lo hi IHa|a off w st IHa IHoff|l IH|t cs IHt IHcs]
+    using expr_ind'; cbn [map_sig]; try congruence.
+  - f_equal. rewrite map_map. apply map_ext_in. intros p Hp. rewrite Forall_forall in IH. auto.
+  - rewrite IHt. f_equal. rewrite map_map. apply map_ext_in. intros c Hc. rewrite Forall_forall in IHcs.
+    cbn [fst snd]. rewrite IHcs; auto.
+Qed.
+
+(* a value renamed by DomainRenamer and then resolved in a design where every renamed domain has the configuration
+   of the original one is the value resolved directly: late-bound signals follow the logic to the target domain *)
+Theorem lower_rename base rho doms doms' e :
+  (forall i d k, In i (expr_sigs e) -> cs_decode base i = Some (d, k) -> doms' (rename_dom rho d) = doms d) ->
+  map_sig (lower_sig base doms') (map_sig (ren_sig base rho) e) = map_sig (lower_sig base doms) e.
+Proof.
+  intros H. rewrite map_sig_comp. apply map_sig_ext_in. intros i s Hi.
+  unfold ren_sig. destruct (cs_decode base i) as [[d k]|] eqn:E; cbn [map_sig fst snd].
+  - unfold lower_sig. rewrite cs_decode_index by (eapply cs_decode_k; eauto). rewrite E. cbn [fst snd].
+    rewrite (H i d k Hi E). reflexivity.
+  - unfold lower_sig. rewrite E. reflexivity.
+Qed.
+
+(* without late-bound signals the renamer leaves values alone *)
+Theorem rename_no_cs base rho e : (forall i, In i (expr_sigs e) -> (i < base)%nat) ->
+  map_sig (ren_sig base rho) e = e.
+Proof.
+  intros H. transitivity (map_sig (fun i s => ESig i s) e).
+  - apply map_sig_ext_in. intros i s Hi. unfold ren_sig, cs_decode.
+    replace (Nat.ltb i base) with true by (symmetry; apply Nat.ltb_lt; auto). reflexivity.
+  - clear H. induction e as [v s|j s|o a IHa|o a b0 IHa IHb|a lo hi IHa|a off w st IHa IHoff|l IH|t cs IHt IHcs]
+      using expr_ind'; cbn [map_sig]; try congruence.
+    + f_equal. rewrite <- (map_id l) at 2. apply map_ext_in. intros p Hp. rewrite Forall_forall in IH. auto.
+    + rewrite IHt. f_equal. rewrite <- (map_id cs) at 2. apply map_ext_in. intros c Hc.
+      rewrite Forall_forall in IHcs. rewrite IHcs by auto. destruct c; reflexivity.
+Qed.
